@@ -12,10 +12,14 @@
 #
 # Template families:
 #   shapes   the 12 order-sensitive sites (each / &attributes / JSON.stringify / Object.keys / ...)
-#   acc      STATE BUILT DURING A RENDER: an object or array created by a literal ({} [] {zz: 1} ..) is
-#            filled in loops and under conditions with keys and values taken from the data, then
-#            enumerated / serialised / read at keys this render may not have set
-#   free     statement lists mutating data-derived objects, literals, $global, mixin attributes
+#   acc      STATE BUILT DURING A RENDER: an object or array created by a literal ({} [] {zz: 1} ..) - or the
+#            $global object every render starts with - is filled in loops and under conditions with keys and
+#            values taken from the data, then enumerated / serialised / read at keys this render may not have set
+#   free     statement lists mutating data-derived objects, literals, $global, variables read before they are
+#            set, mixin definitions and calls (also a call without a definition in this template)
+# The point of acc / free together with the HISTORY: whatever a render leaves behind anywhere in the process
+# (engine, package-level variable, pool, cache) and a later render picks up makes r3..r5 differ from r0 and
+# from the single-render processes.
 # A template is stored either as raw pug AST JSON (list of nodes) or as {"tree": <tmpl.py pug tuples>};
 # only the tree form is handed to the executor model.
 import json
@@ -24,7 +28,6 @@ import tmpl
 
 FRESH_PROCESSES = 3
 FULL_RENDERS = 6          # r0..r5 of harness/c07.go
-STD_FUNCS = (b"Math", b"JSON", b"Object", b"stripTags", b"parseInt")   # harness/engine.go stdFuncs
 
 # ------------------------------------------------------------------ data
 # ('nil',) ('bool',b) ('int',n) ('str',bytes) ('arr',[v]) ('strs',[bytes]) ('ints',[n])
@@ -490,9 +493,15 @@ def free_nodes(rng):
         elif r < 0.95:
             nodes.append(t_tag("p", attrs=[("x", S('1'))], ablocks=[rng.choice(["m", "o"])]))
         else:
+            # a mixin definition and a call of it - or only one of the two: a call without a definition renders
+            # nothing, whatever other templates and earlier renders have defined under that name
             names = rng.sample(["a", "b", "c", "d", "e", "f", "g"], rng.randint(2, 6))
-            nodes.append(('mixin', 'mx', [], [t_tag("i", ablocks=["attributes"])]))
-            nodes.append(('call', 'mx', [], [(a, S(str(i)), True) for i, a in enumerate(names)], []))
+            which = rng.random()
+            if which < 0.75:
+                body = [t_tag("i", ablocks=["attributes"])] if rng.random() < 0.7 else [t_text("M"), t_print(JSONS(m_), False)]
+                nodes.append(('mixin', 'mx', [], body))
+            if which > 0.25:
+                nodes.append(('call', 'mx', [], [(a, S(str(i)), True) for i, a in enumerate(names)], []))
     for _ in range(rng.randint(1, 3)):
         nodes.append(rng.choice(FREE_PRINTS))
     # `e[i] = x` on a variable that is not set yet makes Go print the failed action as text (deterministic, but no
@@ -524,6 +533,9 @@ def acc_nodes(rng):
     else:
         lit, kind = ('arr', [S('u')]), 'arr'
     nodes = [t_stmt(VAR('acc', lit))]
+    if kind == 'map' and rng.random() < 0.2:
+        # the per-render object every template starts with: $global
+        acc, nodes = I('global'), []
     v, k = I('v'), I('k')
     for _ in range(rng.choice([1, 1, 1, 2])):
         src = rng.choice([items_, items_, m_, o_, OKEYS(m_)])
@@ -767,14 +779,16 @@ class C07(Prop):
             "&attributes / JSON.stringify / Object.keys / for-in / top-level name / Object.keys then each / Object.assign "
             "into an ordered literal then each / push / sort / x.k = v / Object.assign); 28% 'acc' = state built during "
             "the render: an object or array created by a literal ({} / {zz: 1} / {a: 'x', k: 2} / Object.assign({}, o) / "
-            "[] / ['u']) is filled inside 1-2 each-loops over items / m / o / Object.keys(m) (acc[v] = true, acc[v] = k + '', "
+            "[] / ['u'], or - 14% of acc - the $global object every render starts with) is filled inside 1-2 each-loops over items / m / o / Object.keys(m) (acc[v] = true, acc[v] = k + '', "
             "acc[k] = [v], acc[k] = v ? v : 0, acc['p' + v] = 1, acc.last = v, acc.push(v), acc.unshift(v), 25% under a "
             "condition on v or k) and under a condition on the data, optionally "
             "nested into a second literal, then enumerated (each k,v), serialised (JSON.stringify, String()), listed "
             "(Object.keys / join / length) or read at keys the render may not have set (acc.zz, acc.flag, acc.a); 20% "
             "'free' statement lists (push, pop, shift, unshift, sort, splice, slice, member and index assignment, "
             "Object.assign, literals {} [] filled from the data, $global, variable shadowing, mixin attributes). acc and "
-            "free are pug trees judged by the oracle and predicted by the executor model (Pug.Compile + Tmpl.Exec). "
+            "free are pug trees judged by the oracle and predicted by the executor model (Pug.Compile + Tmpl.Exec; it "
+            "declines use-before-definition, execution errors and data in which two key names differ only in the case "
+            "of the first letter - for 85% of the acc/free cases the keys below the top level are lower-cased). "
             "Data: Go map[string]interface{}, map[string]string, map[string]int, map[int]string, []interface{}, "
             "[]string, []int, structs, pointers to structs, slices and maps, 0-48 keys (more than 8: several hash "
             "buckets), first-letter case collisions among keys (Foo/foo, A/a, Key/key). Every case runs in 4 processes "
@@ -785,7 +799,8 @@ class C07(Prop):
             "exactly once. HISTORY = 0-60 renders (acc/free: 10% none, 68% 1-4, 17% 5-12, 5% 15-25 quick / 15-60 "
             "thorough; shapes: 0-12) of the same template with OTHER data (acc/free: half of the entries, 80% of those "
             "with fresh random data) or of 0-3 other templates (40% acc, 40% free, 20% shapes) over the same variable "
-            "names, each on a randomly chosen one of the three engine instances. non-trivial = acc / free / mutating "
+            "names, each on a randomly chosen one of the three engine instances. A process the Go runtime kills (stack "
+            "exhaustion on a self-referential object, ...) is observed as class 'crash' for each of its renders. non-trivial = acc / free / mutating "
             "shape, or the rendered map-like value has at least 2 keys; distinct by SHA-1 of the case")
     trusted = [
         "the Go map iteration oracle pi of the theorems is an arbitrary function returning a permutation of the "
@@ -800,7 +815,8 @@ class C07(Prop):
         "(objects built from literals, $global, variables, mixin attributes)",
         "the executor model Pug.Compile + Tmpl.Exec (shared with C01-C06) predicts the acc / free templates from the "
         "template and the data alone; it starts every render from a heap holding only the converted data and an "
-        "empty $global, and every literal allocates a new heap cell",
+        "empty $global, and every literal allocates a new heap cell; `x[i] = e` is run as the call x.__assign(i, e) "
+        "(the action text pugjs emits for both, Run/Judge_C07.v rw_node); its panics are not used as predictions",
         "reflect.DeepEqual against a second, independently built copy of the data is the harness's oracle for "
         "'input untouched'",
         "lowerFirst is modelled on an ASCII first byte (generators use ASCII first letters)",
